@@ -357,6 +357,12 @@ pub async fn drive_n(d: &mut Director, p: &Profile, rng: &mut Rng) {
 }
 
 async fn drive(d: &mut Director, p: &Profile, rng: &mut Rng) {
+    d.allow_unpolled_drop = true;
+    drive_inner(d, p, rng).await;
+    d.allow_unpolled_drop = false;
+}
+
+async fn drive_inner(d: &mut Director, p: &Profile, rng: &mut Rng) {
     let n_actions = rng.range((p.actions / 4) as u64, p.actions as u64) as usize;
     for _ in 0..n_actions {
         if d.world().stop() {
